@@ -46,7 +46,7 @@ func runC08(c *core.Ctx) {
 	n2 := bt.Range(2, 10, "n2")
 	writes := bt.Bias(1, 2, "writes")
 
-	kind := c.T.Choose(6, "closekind")
+	kind := c.T.Choose(7, "closekind")
 	blockWrites := c.T.Bias(1, 3, "blockwrites")
 	closeErr := c.T.Bias(1, 4, "closeerr")
 	c.Knob("base", base)
@@ -248,9 +248,10 @@ func runC08(c *core.Ctx) {
 
 	// the cut
 	type closer struct {
-		name     string
-		done     atomic.Bool
-		returned time.Duration
+		name         string
+		done         atomic.Bool
+		returned     time.Duration
+		openAtReturn []string // sockets of the agent still open at the instant this closer returned
 	}
 	var closers []*closer
 	t0 := c.Now()
@@ -260,6 +261,12 @@ func runC08(c *core.Ctx) {
 		go func() {
 			_ = f()
 			cl.returned = c.Now()
+			// "when Close has returned": evaluated at the instant of return, for every caller
+			for _, so := range aSocks() {
+				if !so.Closed() {
+					cl.openAtReturn = append(cl.openAtReturn, so.Local.String())
+				}
+			}
 			cl.done.Store(true)
 		}()
 	}
@@ -309,6 +316,9 @@ func runC08(c *core.Ctx) {
 		run("GracefulClose", A.A.GracefulClose)
 	case 5:
 		run("Close+Close", func() error { _ = A.A.Close(); return A.A.Close() })
+	case 6:
+		run("Close#1", A.A.Close)
+		run("Close#2", A.A.Close)
 	}
 	allDone := func() bool {
 		for _, cl := range closers {
@@ -318,8 +328,43 @@ func runC08(c *core.Ctx) {
 		}
 		return true
 	}
+	anyDone := func() string {
+		for _, cl := range closers {
+			if cl.done.Load() {
+				return cl.name
+			}
+		}
+		return ""
+	}
+	earlyChecked := false
 	for c.Now()-t0 <= time.Second {
 		synctest.Wait()
+		if who := anyDone(); who != "" && !earlyChecked {
+			// "when Close has returned" holds for EVERY caller: at the first quiescent point after any closer
+			// returned (no simulated time, no simulator help in between) the agent must be torn down, even if
+			// another closer is still inside its own call
+			earlyChecked = true
+			for _, cl := range callers {
+				if cl.name != "dial/accept B" && !cl.done.Load() {
+					c.Failf("C08/close-returned-before-teardown", "%s returned but %s is still blocked (a concurrent close is still tearing the agent down; cut %d/%d, kind %d)",
+						who, cl.name, pos, len(ops), kind)
+					break
+				}
+			}
+			if st := A.LastState(); st != ice.ConnectionStateClosed && !c.Failed() {
+				c.Failf("C08/close-returned-before-teardown", "%s returned but the last notified state is %s, not Closed (cut %d/%d, kind %d)", who, st, pos, len(ops), kind)
+			}
+			if c.Failed() {
+				for _, s := range aSocks() {
+					s.SetBlockWrites(false)
+				}
+				for p := d.W.Parked(); len(p) > 0; p = d.W.Parked() {
+					d.W.Release(p[0])
+					synctest.Wait()
+				}
+				return
+			}
+		}
 		if allDone() {
 			break
 		}
@@ -343,6 +388,13 @@ func runC08(c *core.Ctx) {
 			s.SetBlockWrites(false)
 		}
 		return
+	}
+	for _, cl := range closers {
+		if len(cl.openAtReturn) > 0 {
+			c.Failf("C08/close-returned-before-teardown", "%s returned while sockets of the agent were still open (%v): a concurrent close was still in progress (cut %d/%d, kind %d)",
+				cl.name, cl.openAtReturn, pos, len(ops), kind)
+			return
+		}
 	}
 	// 1. everyone blocked before the cut has returned with an error
 	for _, cl := range callers {
